@@ -126,6 +126,19 @@ def run_config(cfg):
     res.funcs = META['functions']
     try:
         tab, alt = _load(coeffs, cfg)
+        n_ret = len(coeffs.level1(cfg['table'], compact=True)) if cfg['kind'] == 'level1' else len(coeffs.qshift(cfg['table']))
+        n_exp = (4 if cfg['kind'] == 'level1' else 8) * (3 if cfg['table'].endswith('_bp') else 2) // 2
+        if n_ret != n_exp or len(tab) != n_exp:
+            res.status = 'violation'
+            res.violations.append(dict(what='loader returns %d arrays for table %s, the documented tuple has %d' % (n_ret, cfg['table'], n_exp), facts=facts,
+                                       replay=dict(kind='load'), reproduced=True))
+            return res
+        # every other documented way of asking for this table in between (may legitimately raise ValueError) must not disturb it
+        for other in (lambda: coeffs.level1(cfg['table'], compact=False), lambda: coeffs.level1(cfg['table'], compact=True), lambda: coeffs.qshift(cfg['table'])):
+            try:
+                other()
+            except (ValueError, KeyError, IOError, OSError):
+                pass
         tab2, _ = _load(coeffs, cfg)
     except Exception as e:
         res.status = 'violation'
